@@ -50,8 +50,35 @@ class C26S(SchedProp):
     report_id = 'C26'
     drv = 'C26S'
     props_modules = ['CylcModel.Props.C26S']
-    theorems = []
-    statement_note = 'TODO'
+    theorems = [
+        'CylcModel.C26S.pool_no_duplicates',
+        'CylcModel.C26S.step_keeps_no_duplicates',
+        'CylcModel.C26S.set_keeps_no_duplicates',
+        'CylcModel.C26S.merge_keeps_no_duplicates',
+        'CylcModel.C26S.restart_keeps_no_duplicates',
+        'CylcModel.C26S.add_present_noop',
+        'CylcModel.C26S.lookup_returns_filed',
+        'CylcModel.C26S.lookup_consistent',
+        'CylcModel.C26S.db_pool_exact',
+    ]
+    statement_note = (
+        'partial: proofs over the Sched3Set model (scheduler core + flows + `cylc set` + restart, a line-by-line port) for '
+        'all instance graphs. PROVED: pool_no_duplicates - in every state of every run (any list of main loops, submit '
+        'results, job messages, hold / release / hold-point / stop / pause commands, `cylc set` of outputs or '
+        'prerequisites with any --flow option and --wait on pooled or inactive instances, restarts) no two pooled proxies '
+        'share a (cycle point, name); the invariant is inductive: every operation keeps it from ANY state that has it '
+        '(step_keeps_no_duplicates; named instances for `cylc set`, merge_flows and restart), proved primitive by primitive '
+        '(add_to_pool, put, remove, spawn_task incl. the flow-wait recursion, spawn_on_all_outputs, merge_flows, '
+        'spawn_on_output, process_message incl. forced messages, _set_outputs_itask / _set_prereqs_tdef, '
+        'load_db_task_pool_for_restart ...) as an instance of a generic pool-shape invariant (Sched3SetNoDup, also used by '
+        'C11R). add_present_noop - add_to_pool of an instance whose key is pooled drops the second object. '
+        'lookup_returns_filed / lookup_consistent - with no duplicates the pool\'s look-up (the model\'s get_task / '
+        '_get_task_by_id) returns exactly the filed proxy for the key of every pooled proxy, in every state of every run. '
+        'db_pool_exact - after a main loop that does not shut down, the task_pool table is exactly the pool (status, flows, '
+        'held). NOT PROVED (the model keeps one flat pool list: cycle buckets, the cached task list and the side indexes '
+        'have no counterpart in it): no empty cycle bucket, cached list = contents, queue / trigger-now members are pooled '
+        'objects - these are checked by the judge on every real trace (observation keys book, idx) and, for the bucket / '
+        'cache algebra, proved in C26 (PoolCache).')
     technique = ('inductive invariant over op lists of the Sched3Set model (one lemma per primitive) + trace '
                  'correspondence with the real Scheduler + judge on the observed pool indexes')
     trusted = C29.trusted[:2] + [
@@ -59,7 +86,18 @@ class C26S(SchedProp):
         '(observation keys book, idx, db)',
     ]
     unmodelled = C29.unmodelled
-    rule = 'TODO'
+    rule = ('generated integer-cycling workflows (2-6 tasks, 1-3 recurrences, AND/OR triggers, inter-cycle offsets, retries, '
+            'optional/custom outputs, suicide and absolute triggers, sequential tasks, runahead P0-P3) driven through the real '
+            'Scheduler by a seeded adaptive schedule of main loops, submit results and job messages mixed with `cylc set` '
+            'commands (outputs none / 1-3 / unknown, prerequisites all / some / foreign; --flow default / new / none / N; '
+            '--wait), hold, release, hold point, pause, stop + restart. Kinds set / setany as in C29 (half of the commands on '
+            'pooled instances); setI / setanyI: 85% of the commands on instances that are NOT in the pool (future, finished, '
+            'never-run leaf tasks, cycle points where the pool holds nothing), 30% --wait, 1-2 restarts; 6 + 17 hand-written '
+            'histories (leaf task at an empty cycle point, pre-start instance, set after the target finished, the same '
+            'inactive instance in several flows, future instance merged later, no-flow leaf). After every operation the '
+            'pool dictionaries, the cached list, every look-up path and (after main loops) the task_pool table are read; '
+            'non-trivial = distinct class (kind, ending, set variants on pooled / inactive targets, target gone / never '
+            'pooled / at an empty point, merges, flow-wait, restarts with several flows) per distinct case')
     kinds = ('set', 'setany', 'setI', 'setanyI')
     n_quick = 48
     n_thorough = 640
